@@ -7,7 +7,7 @@ import subprocess
 
 from common import *
 
-PROTOS = ["ssh", "xmpp", "postgres", "socks4", "socks5", "proxy_protocol", "regexp", "clock", "ip", "wireguard", "dns", "rdp", "http", "tls", "winbox"]
+PROTOS = ["ssh", "xmpp", "postgres", "socks4", "socks5", "proxy_protocol", "regexp", "clock", "ip", "wireguard", "dns", "rdp", "http", "tls", "winbox", "openvpn"]
 CLAUSES = {"C14": ("V1",), "C06": ("M1", "M2", "M3", "M4"), "C04": ("A1", "A2")}
 
 
@@ -20,6 +20,8 @@ def limit_as():
 
 def run(res, pid, tier, protos=None):
     vdrive = build_harness()
+    if protos is None and os.environ.get("VERIF_PROTOS"):
+        protos = os.environ["VERIF_PROTOS"].split(",")      # debugging aid: a subset of the protocols
     cov = res.coverage
     cov.update(states=0, transitions=0, traces_validated_against_impl=0, samples=[], by_proto={})
     mine = CLAUSES[pid]
